@@ -93,9 +93,14 @@ def script(case):
                     f"    state.set('pyscript.out_f{fi}', kw.get('seq'), who='f{fi}')",
                     f"    service.call('vtest', 'rec', src='f{fi}', seq=kw.get('seq'))",
                 ]
+            L += ["    mine = kw.get('seq')"]
             if f["sleep"]:
                 L += [f"    task.sleep({f['sleep']})"]
-            L += [f"    vrec('end', 'f{fi}', kw.get('seq'))", ""]
+            # after the suspension the run still has its own arguments, locals, task and context
+            L += [f"    vrec('end', 'f{fi}', kw, vtask(), context.id if context else None, mine)"]
+            if f["emit"] and f["sleep"]:
+                L += [f"    event.fire('out_ev2', src='f{fi}', seq=mine)"]
+            L += [""]
     elif case["kind"] == "mqtt":
         args = [repr(case["topic"])] + ([repr(case["filter"])] if case["filter"] else [])
         if case["kwargs"]:
@@ -165,7 +170,7 @@ async def execute(case):
     def fake_unregister(hass, webhook_id):
         hooks.pop(webhook_id, None)
 
-    out_events, svc_calls, state_ctx = [], [], []
+    out_events, svc_calls, state_ctx, out_events2 = [], [], [], []
     with patch("homeassistant.components.mqtt.async_subscribe", fake_subscribe), patch(
         "homeassistant.components.webhook.async_register", fake_register
     ), patch("homeassistant.components.webhook.async_unregister", fake_unregister):
@@ -179,6 +184,7 @@ async def execute(case):
 
             it.hass.services.async_register("vtest", "rec", rec_service)
             it.hass.bus.async_listen("out_ev", lambda ev: out_events.append((dict(ev.data), ev.context.parent_id)))
+            it.hass.bus.async_listen("out_ev2", lambda ev: out_events2.append((dict(ev.data), ev.context.parent_id)))
             it.hass.bus.async_listen("state_changed", lambda ev: state_ctx.append((ev.data["entity_id"], ev.data["new_state"].state if ev.data["new_state"] else None, ev.context.parent_id)))
             await it.start()
             t0 = it.vt()
@@ -214,7 +220,7 @@ async def execute(case):
             n_subs, n_hooks = len(subs), len(hooks)
             await it.unload()
             leftover = (len(subs), len(hooks))
-    return {"recs": recs, "fired": fired, "out_events": out_events, "svc_calls": svc_calls, "state_ctx": state_ctx, "errors": errs,
+    return {"recs": recs, "fired": fired, "out_events": out_events, "svc_calls": svc_calls, "state_ctx": state_ctx, "out_events2": out_events2, "errors": errs,
             "n_subs": n_subs, "n_hooks": n_hooks, "leftover": leftover}
 
 
@@ -308,6 +314,19 @@ def model_and_compare(case, r):
         ends = [a for rel, a in r["recs"] if a[0] == "end"]
         if len(ends) != sum(len(v) for v in exp_summary.values()) and "count" not in problems:
             problems.append("run-not-finished")
+        # every run ends with the arguments, local, task and context it started with (runs that overlap in time - a later
+        # occurrence arrives while an earlier run sleeps - never share interpreter state)
+        key_of = lambda kw, tid, cid: json.dumps([clean_kw(kw), tid, cid], sort_keys=True, default=str)
+        started = sorted((a[1], key_of(a[2], a[3], a[4])) for rel, a in r["recs"] if a[0] == "start")
+        ended = sorted((a[1], key_of(a[2], a[3], a[4])) for rel, a in r["recs"] if a[0] == "end")
+        if started != ended and "count" not in problems and "run-not-finished" not in problems:
+            problems.append("run-state-mixed-up")
+        if any(a[5] != a[2].get("seq") for rel, a in r["recs"] if a[0] == "end"):
+            problems.append("run-local-mixed-up")
+        for data, parent in r["out_events2"]:
+            want = seq_ctx.get(data.get("seq"))
+            if want is not None and parent != want:
+                problems.append("context-parent-event-after-sleep")
     else:
         exp = []
         for rel, msg, _ in r["fired"]:
